@@ -24,6 +24,9 @@ def gen_problem(rnd, hermitian=True):
     offset = rnd.choice([0, 0, 0, 2 ** 17])                   # a large common offset: gaps far above atol but below 1e-5 of the level values
     for b, s in enumerate(sizes): E += [Fraction(offset + 5 * b + rnd.choice([0, 1, 2]) + (0 if zb else 1), 1) for _ in range(s)]
     if all(e == 0 for e in E): E[0] = Fraction(1)
+    # non-Hermitian mode: the unperturbed energies may be complex
+    cE = (not hermitian) and rnd.random() < 0.4
+    E = [(e, Fraction(rnd.choice([0, 0, 1, -1, 2]), rnd.choice([1, 2])) if cE else Fraction(0)) for e in E]
     cplx = rnd.random() < 0.5
     def entry():
         if rnd.random() < 0.3: return (Fraction(0), Fraction(0))
@@ -37,7 +40,7 @@ def gen_problem(rnd, hermitian=True):
                 m[a][a] = (m[a][a][0], Fraction(0))
                 for b in range(a + 1, d): m[b][a] = (m[a][b][0], -m[a][b][1])
         return m
-    terms = {(0,) * k: [[(E[a], Fraction(0)) if a == b else (Fraction(0), Fraction(0)) for b in range(d)] for a in range(d)]}
+    terms = {(0,) * k: [[E[a] if a == b else (Fraction(0), Fraction(0)) for b in range(d)] for a in range(d)]}
     for n in itertools.product(range(3), repeat=k):
         if 0 < sum(n) <= 2 and rnd.random() < 0.7: terms[n] = mat()
     mode = rnd.choice(["none", "tuple", "dict"])
@@ -66,9 +69,22 @@ def gen_problem(rnd, hermitian=True):
 def to_sympy(m):
     return sympy.Matrix([[sympy.Rational(z[0].numerator, z[0].denominator) + sympy.I * sympy.Rational(z[1].numerator, z[1].denominator) for z in row] for row in m])
 
-def run_impl(P, requests):
-    H = {n: to_sympy(m) for n, m in P["terms"].items()}
-    Ht, U, Ud = block_diagonalize(H, subspace_indices=P["blocks"], fully_diagonalize=P["fd_py"], hermitian=P["hermitian"])
+def interleave(P, rnd):
+    """a relabelling of the basis states that interleaves the blocks but keeps the order inside each block:
+    returns (subspace_indices in the new labelling, perm) with perm[new position] = canonical state"""
+    labels = list(P["blocks"]); rnd.shuffle(labels)
+    members = {b: [a for a in range(P["d"]) if P["blocks"][a] == b] for b in range(P["N"])}
+    seen = {b: 0 for b in range(P["N"])}; perm = []
+    for b in labels: perm.append(members[b][seen[b]]); seen[b] += 1
+    return labels, perm
+
+def permuted(m, perm):
+    return [[m[perm[a]][perm[b]] for b in range(len(perm))] for a in range(len(perm))]
+
+def run_impl(P, requests, layout=None):
+    idx, perm = layout if layout is not None else (P["blocks"], list(range(P["d"])))
+    H = {n: to_sympy(permuted(m, perm)) for n, m in P["terms"].items()}
+    Ht, U, Ud = block_diagonalize(H, subspace_indices=idx, fully_diagonalize=P["fd_py"], hermitian=P["hermitian"])
     S = {"H_tilde": Ht, "U": U, "U†": Ud}
     P["_series"] = S
     out = []
@@ -112,7 +128,7 @@ def choose_variant(P, rnd):
     if all(sum(n) <= 1 for n in keys) and rnd.random() < 0.5: v["container"] = "list"
     elif rnd.random() < 0.25 and all(any(n[a] > 0 for n in keys) for a in range(k)): v["container"] = "monomials"   # every symbol must occur in a key
     E = [P["terms"][(0,) * k][a][a] for a in range(P["d"])]
-    if all(e[0].denominator == 1 and abs(e[0]) < 2**40 for e in E) and rnd.random() < 0.35: v["int_h0"] = True
+    if all(e[0].denominator == 1 and e[1] == 0 and abs(e[0]) < 2**40 for e in E) and rnd.random() < 0.35: v["int_h0"] = True
     if v["designation"] == "rotated" and max(abs(e[0]) for e in E) > 1000:
         v["designation"] = "vectors"        # rotating H_0 of size 1e5 leaves rounding residues above the absolute atol = 1e-12: not the code's fault
     if v["designation"] == "rotated":
@@ -120,7 +136,18 @@ def choose_variant(P, rnd):
         v["level_rotation"] = P["fd"]["kind"] != "dict" and rnd.random() < 0.7
         v["np_seed"] = rnd.randrange(2**31)
     if v["designation"] == "blockseries": v["container"] = "dict"
+    if v["designation"] in ("indices", "blockseries") and rnd.random() < 0.5: v["interleave"] = True
     return v
+
+def snap(x):
+    """a value-level picture of an input object: container layout, identity of the stored objects, array contents"""
+    from scipy import sparse
+    if isinstance(x, dict): return ("dict", [(repr(k), id(val), snap(val)) for k, val in x.items()])
+    if isinstance(x, (list, tuple)): return (type(x).__name__, [(id(val), snap(val)) for val in x])
+    if sparse.issparse(x):
+        c = x.tocoo(); return (type(x).__name__, x.shape, str(x.dtype), c.row.tobytes(), c.col.tobytes(), c.data.tobytes())
+    if isinstance(x, np.ndarray): return ("ndarray", x.shape, str(x.dtype), x.tobytes())
+    return ("other", type(x).__name__)
 
 def run_impl_numeric(P, requests, v, rnd):
     """the same problem through the floating-point code in presentation `v`; returns full d x d matrices in the canonical basis"""
@@ -133,6 +160,7 @@ def run_impl_numeric(P, requests, v, rnd):
     for n, m in P["terms"].items():
         a = to_float(m); mats[n] = a if cplx else a.real.copy()
     if v["int_h0"]: mats[zero_n] = np.rint(mats[zero_n].real).astype(int)
+    snapshot = None
     R = np.eye(d, dtype=complex)          # rotation inside degenerate levels (canonical coordinates)
     kw = {}
     if v["designation"] == "rotated":
@@ -148,6 +176,10 @@ def run_impl_numeric(P, requests, v, rnd):
         W = Q @ (R if cplx else R.real)                     # new basis vectors (columns) in the rotated frame
         mats = {n: Q @ m @ Q.conj().T for n, m in mats.items()}
         kw["subspace_eigenvectors"] = [W[:, off[b]:off[b + 1]] for b in range(N)]
+    idx_labels = P["blocks"]
+    if v["designation"] in ("indices", "blockseries") and v.get("interleave"):
+        idx_labels, perm = interleave(P, rnd)
+        mats = {n: m[np.ix_(perm, perm)] for n, m in mats.items()}
     def conv(a):
         c = v["carrier"] if v["carrier"] != "mixed" else rnd.choice(["dense", "sparse", "spmatrix"])
         return a if c == "dense" else (sparse.csr_array(a) if c == "sparse" else sparse.csr_matrix(a))
@@ -155,7 +187,7 @@ def run_impl_numeric(P, requests, v, rnd):
         H = {n: [[conv(m[off[i]:off[i + 1], off[j]:off[j + 1]]) for j in range(N)] for i in range(N)] for n, m in mats.items()}
     else:
         H = {n: conv(m) for n, m in mats.items()}
-    if v["designation"] in ("indices", "blockseries"): kw["subspace_indices"] = P["blocks"]
+    if v["designation"] in ("indices", "blockseries"): kw["subspace_indices"] = idx_labels
     if v["designation"] == "vectors":
         eye = np.eye(d); kw["subspace_eigenvectors"] = [eye[:, off[b]:off[b + 1]] for b in range(N)]
     if v["container"] == "list":
@@ -167,8 +199,11 @@ def run_impl_numeric(P, requests, v, rnd):
         H = {sp.Mul(*[s ** e for s, e in zip(syms, n)]) if any(n) else sp.S.One: m for n, m in H.items()}
     elif v["designation"] == "blockseries":
         data = dict(H); H = BlockSeries(data=data, shape=(), n_infinite=k)
+    is_series = isinstance(H, BlockSeries)
+    before = snap(H._data if is_series else H); vec_before = snap(kw.get("subspace_eigenvectors"))
+    fd_before = snap(P["fd_py"]) if isinstance(P["fd_py"], dict) else None
     Ht, U, Ud = block_diagonalize(H, fully_diagonalize=P["fd_py"], hermitian=P["hermitian"], **kw)
-    S = {"H_tilde": Ht, "U": U, "U†": Ud}; out = []
+    S = {"H_tilde": Ht, "U": U, "U†": Ud}; out = []; handed = []
     for (name, i, j, n) in requests:
         try:
             x = S[name][(i, j) + tuple(n)]
@@ -176,10 +211,16 @@ def run_impl_numeric(P, requests, v, rnd):
             out.append(("err", type(e).__name__, str(e))); continue
         full = np.zeros((d, d), dtype=complex)
         if x is zero: out.append(("zero", full)); continue
+        if x is not one: handed.append((x, snap(x)))
         if x is one: x = np.eye(sizes[i])
         if hasattr(x, "toarray"): x = x.toarray()
         full[off[i]:off[i] + sizes[i], off[j]:off[j] + sizes[j]] = np.asarray(x, dtype=complex)
         out.append(("val", R @ full @ R.conj().T))         # back to the canonical basis
+    # C10, mutation clause: the caller's containers and arrays, and every value already handed out, are unchanged
+    if not is_series and snap(H) != before: out.append(("mutated", "the Hamiltonian container or its arrays"))
+    if snap(kw.get("subspace_eigenvectors")) != vec_before: out.append(("mutated", "subspace_eigenvectors"))
+    if fd_before is not None and snap(P["fd_py"]) != fd_before: out.append(("mutated", "fully_diagonalize"))
+    if any(snap(x) != s0 for x, s0 in handed): out.append(("mutated", "a value returned earlier"))
     return out
 
 def to_json(P, requests, algo):
@@ -273,7 +314,7 @@ def oracle(P, reqs, impl, maxn):
 
 def eliminated(P, a, b):
     """is entry (a,b), a and b in the same block, one the transformation must eliminate?"""
-    d = P["d"]; k = P["k"]; E = [P["terms"][(0,) * k][x][x][0] for x in range(d)]; blk = P["blocks"][a]
+    d = P["d"]; k = P["k"]; E = [P["terms"][(0,) * k][x][x] for x in range(d)]; blk = P["blocks"][a]
     fd = P["fd"]
     if fd["kind"] == "none": return P["N"] == 1 and E[a] != E[b]
     if fd["kind"] == "tuple":
@@ -285,7 +326,7 @@ def eliminated(P, a, b):
 
 def d5_class(P):
     """a kept (not eliminated) off-diagonal pair inside a block joins two different unperturbed energies"""
-    d = P["d"]; k = P["k"]; E = [P["terms"][(0,) * k][a][a][0] for a in range(d)]
+    d = P["d"]; k = P["k"]; E = [P["terms"][(0,) * k][a][a] for a in range(d)]
     sel = None
     if P["fd"]["kind"] == "tuple": sel = {b: None for b in P["fd"]["blocks"]}
     if P["fd"]["kind"] == "dict": sel = {m["block"]: m["mask"] for m in P["fd"]["masks"]}
@@ -317,7 +358,9 @@ def main(seed, ncases, driver, out, mode="all"):
         rnd.shuffle(reqs)
         t0 = time.time()
         try:
-            impl = run_impl(P, reqs)
+            layout = interleave(P, rnd) if rnd.random() < 0.5 else None
+            if layout is not None: stats["interleaved subspace_indices (exact run)"] = stats.get("interleaved subspace_indices (exact run)", 0) + 1
+            impl = run_impl(P, reqs, layout)
         except Exception as e:
             impl = [("exc", type(e).__name__, str(e)[:100])] * len(reqs)
         t_impl += time.time() - t0
@@ -354,6 +397,8 @@ def main(seed, ncases, driver, out, mode="all"):
                 num = run_impl_numeric(P, reqs, variant, rnd)
             except Exception as e:
                 num = [("exc", type(e).__name__, str(e)[:100])] * len(reqs)
+            for extra_ in num[len(reqs):]:
+                failures.append({"case": c, "kind": "caller-data-mutated", "what": extra_[1], "carrier": carrier, "problem": ser_problem(P)})
             for r, a, b in zip(reqs, num, model):
                 if a[0] in ("exc", "err") or b[0] == "err":
                     if not (a[0] in ("exc", "err") and b[0] == "err"):
